@@ -107,6 +107,9 @@ pub fn drain_adv(sim: &mut Sim, env: &mut Env, rng: &mut StdRng, interval: u64, 
             if rng.gen_bool(0.5) {
                 env.mutate_filters(sim, i, rng, with_subst);
             }
+            if rng.gen_bool(0.5) {
+                env.mutate_hashes(sim, i, rng);
+            }
             if env.answer_filter(sim, i, interval) {
                 any = true;
             }
